@@ -494,6 +494,7 @@ where
             .then_with(|| a.case.strs.cmp(&b.case.strs))
             .then_with(|| a.case.op.cmp(&b.case.op))
     });
+    st.violations.dedup_by(|a, b| a.case == b.case && a.kind == b.kind && a.actual == b.actual);
     let mut known_counts: BTreeMap<String, (u64, Option<Violation>)> = BTreeMap::new();
     let mut real: Vec<Violation> = Vec::new();
     let mut real_count: u64 = 0;
